@@ -250,10 +250,20 @@ def _set_e_world(b, rb, h, blocks):
             if a[0] == "discr" and val == "None" and any(s_[0] == "call" and last_seg(s_[1]) == "last" for s_ in mir.subexprs(a)):
                 nothing_ran |= flow.edge_dominated(b, x, tgt)
 
+    def contradicted(bi, depth):
+        """the block is reached only under a branch outcome this world rules out (the `false` of `status != 0 && ..`
+        assigned on the status == 0 side)"""
+        for atom, val in dom_facts(b, bi):
+            if isinstance(val, bool) and strip_sites(atom)[0] != "var":
+                tv = ev(atom, depth + 1)
+                if tv is not None and tv != val:
+                    return True
+        return False
+
     def sources(l, depth=4):
         out = []
         for bi, si in b.defs.get(l, []):
-            if bi in nothing_ran:
+            if bi in nothing_ran or contradicted(bi, 6 - depth):
                 continue
             x = strip_sites(b.def_expr(bi, si))
             if x[0] == "var" and depth > 0 and x[1] != l:
